@@ -97,6 +97,18 @@ func c10Values(types []int, events []uint32, ptss []int, segFor35 bool) []c19Val
 	return out
 }
 
+func c10VSSValues() []c19Val {
+	out := c10Values([]int{0x40, 0x41, 0x10}, []uint32{1, 2}, []int{100, 200}, false)
+	for _, ev := range []uint32{1, 2} {
+		for _, p := range []uint64{100, 200} {
+			for _, k := range []uint8{1, 2} {
+				out = append(out, c19Val{Type: 0x40, Event: ev, HasPTS: true, PTS: p, Num: 1, Exp: 1, VSS: k})
+			}
+		}
+	}
+	return out
+}
+
 var c10NamedTypes = []int{0x00, 0x01, 0x10, 0x11, 0x12, 0x13, 0x14, 0x15, 0x16, 0x17, 0x18, 0x19, 0x20, 0x21, 0x22, 0x23, 0x24, 0x25, 0x26, 0x27,
 	0x30, 0x31, 0x32, 0x33, 0x34, 0x35, 0x36, 0x37, 0x3C, 0x3D, 0x40, 0x41, 0x42, 0x43, 0x44, 0x45, 0x50, 0x51, 0x02}
 
@@ -114,6 +126,8 @@ var c10Alphabets = map[string]*c10Alphabet{
 	// many pairwise different descriptors that share one of two signal times
 	"burst": {name: "burst", closeBy: "index", nClose: 2, again: true,
 		process: c10Values([]int{0x20, 0x10, 0x22, 0x30, 0x34, 0x40, 0x50}, []uint32{1, 2, 3}, []int{500, 600}, false)},
+	// unscheduled-event starts that carry a stream-switch signal id (the tracker compares those ids)
+	"vss": {name: "vss", closeBy: "index", nClose: 2, again: true, process: c10VSSValues()},
 	"distinct-pts": {name: "distinct-pts", closeBy: "index", nClose: 3, again: false, autoPTS: true,
 		process: c10Values([]int{0x10, 0x11, 0x13, 0x14, 0x22, 0x23, 0x40, 0x41, 0x50, 0x51}, []uint32{1, 2}, []int{0}, false)},
 }
@@ -169,6 +183,9 @@ func (a *c10Alphabet) describeOp(op int) string {
 			if a.autoPTS {
 				p = "pts=100+position"
 			}
+		}
+		if v.VSS > 0 {
+			p += fmt.Sprintf(" stream-switch-id sig%d", v.VSS)
 		}
 		return fmt.Sprintf("Process(new{%#x ev%d %s %d/%d})", v.Type, v.Event, p, v.Num, v.Exp)
 	case a.again && op == a.nops()-1:
@@ -421,7 +438,7 @@ func c10Apply(s *c10State, op int, res *engine.Result, depth int) bool {
 }
 
 func c10ValKey(v c19Val) string {
-	return fmt.Sprintf("%x.%d.%v.%d.%d.%d.%v.%d.%d", v.Type, v.Event, v.HasPTS, v.PTS, v.Num, v.Exp, v.Sub, v.SubNum, v.SubExp)
+	return fmt.Sprintf("%x.%d.%v.%d.%d.%d.%v.%d.%d.%d", v.Type, v.Event, v.HasPTS, v.PTS, v.Num, v.Exp, v.Sub, v.SubNum, v.SubExp, v.VSS)
 }
 
 // c10Key: everything the tracker can read later (open list, the stale tail of its backing array,
@@ -501,8 +518,8 @@ func c10Scenario(name, rule, alphaQuick, alphaThorough string, depthQuick, depth
 		return c10Alphabets[alphaQuick]
 	}
 	// init id selects the alphabet so that replay files are tier independent
-	ids := map[string]int{"wide-quick": 0, "wide-thorough": 1, "focused": 2, "distinct-pts": 3, "core": 4}
-	byID := []string{"wide-quick", "wide-thorough", "focused", "distinct-pts", "core"}
+	ids := map[string]int{"wide-quick": 0, "wide-thorough": 1, "focused": 2, "distinct-pts": 3, "core": 4, "vss": 5}
+	byID := []string{"wide-quick", "wide-thorough", "focused", "distinct-pts", "core", "vss"}
 	return &engine.BFS[*c10Wrap]{
 		Name: name, Rule: rule,
 		Inits: func(r *engine.Run) []int { return []int{ids[pick(r).name]} },
@@ -688,6 +705,8 @@ func init() {
 				},
 				Check: c10CheckLong, Batch: 4,
 			},
+			c10Scenario("stream-switch-ids", "BFS to depth 4 (thorough 5) over {Process for types {0x40,0x41,0x10} x event {1,2} x PTS {100,200}, and unscheduled-event starts 0x40 whose MID carries stream-switch signal id sig1 / sig2 (the tracker compares these ids between starts of equal event id), Close(equal of the k-th internal element, k<2), Process(same object again)}."+common,
+				"vss", "vss", 4, 5),
 			c10Scenario("core-deep", "BFS to depth 5 (thorough 6) over {Process for types {0x10,0x13,0x14,0x41,0x22,0x23} x event {1,2} with PTS = 100+position, Close(equal of the k-th internal element, k<2)}: the deepest breakaway/resumption/close interplay."+common,
 				"core", "core", 5, 6),
 		},
